@@ -7,6 +7,18 @@ import subprocess
 HERE = os.path.dirname(os.path.dirname(os.path.abspath(__file__)))
 
 CLAIMED = {
+    "C01": dict(
+        engine="probe",
+        technique="runtime monitor: differential against a definitional reference interpreter over typed random programs (success/failure and every binding)",
+        text="Thousands of typed random programs per run (ill-typed and failing sub-terms included, also inside short-circuited operands) are evaluated by the real translate+VM pipeline and by an independent tree-walking interpreter written from the language reference; any difference in outcome or in a bound value is a violation, shrunk and classified. Behaviour the reference leaves open yields no verdict and is counted. Holds on the programs generated; the construct histogram in the evidence is the statement of reach.",
+        note="Trusted: vf/refint.py as my reading of docsite/site/content/reference/*.md (rule table in DESIGN.md appendix A); the probe's value serializer. Crashes are left to C04.",
+        design="DESIGN.md section 4, C01"),
+    "C04": dict(
+        engine="probe",
+        technique="runtime monitor: crash/hang attribution (catch_unwind panic responses, signals, confirmed watchdog) over hostile inputs through every stage + the real CLI's exit status",
+        text="Token soup, arbitrary UTF-8, token mutations of every shipped .ucg/fuzz-corpus file and of generated programs, a catalogue of ~1,700 edge-operand programs and deep-but-allowed nesting are driven through tokenize, parse, fmt, eval, build (type checker) and all converters in-process and through `ucg build|fmt|test`; the oracle is the absence of panic/abort/hang events and exit status in {0,1} with a message. 'Terminates' is monitored as bounded progress (10 s per stage, confirmed alone at 30 s).",
+        note="Trusted: the watchdog bound as a stand-in for termination; the probe is built with overflow-checks/debug-assertions on (semantics of `cargo build`). Excluded inputs (nesting > 64, module self-recursion, ranges > 10^6) are counted, not judged.",
+        design="DESIGN.md section 4, C04"),
     "C02": dict(
         engine="probe",
         technique="runtime monitor: reference-model oracle (precedence climbing over the published table) on parse trees; exhaustive 111,150-chain space + random chains",
